@@ -25,24 +25,40 @@
 (* Repair is idempotent; InfoCode = InfoDecl on well-formed directories.   *)
 (* The directory after a REJECTED fix pass is modelled (for the sake of    *)
 (* the histories) but nothing is claimed about it.                         *)
+(*                                                                         *)
+(* The VIEW.  The validator does not read the files itself: it is handed a *)
+(* data set, and the data set may be configured to present a stored        *)
+(* reference differently from what is on disk (start / end symbols around  *)
+(* it, tokens_only = boundaries dropped): ViewRef.  The code-shaped pass   *)
+(* therefore checks ViewRef(stored reference); what it may write back is   *)
+(* the repaired STORED tensor (RepairCommutesWithView: the repairs of the  *)
+(* presented tensor are the presentation of the repairs of the stored one),*)
+(* and only if that tensor was repaired (UndamagedUntouched: a tensor      *)
+(* without a defect keeps its stored content, whatever the view).  All the *)
+(* invariants above are checked for every view: the verdict and the        *)
+(* directory left behind do not depend on it.  Defects that a tokens_only  *)
+(* view hides from the validator (boundaries, dimensionality, width of a   *)
+(* 2-D reference) are not injected under such a view.                      *)
 (***************************************************************************)
 EXTENDS Naturals, Integers, Sequences, FiniteSets, TLC, Json
 
 CONSTANTS Bases,       \* set of well-formed base directories [dir, hasali, hasref]
           DefectSet,   \* set of defects [id, k, j] that Inject may apply to any utterance
           MaxDefects,  \* number of injected defects 0..MaxDefects
-          Plans        \* set of sequences of fix values (None = -1): the histories explored
+          Plans,       \* set of sequences of fix values (None = -1): the histories explored
+          Views,       \* set of [sos, eos, tokens_only]: how the data set presents a stored reference
+          ViewPlans    \* the histories explored under a view other than the plain one
 
 None == 0 - 1
 HasFix(fx) == fx >= 0
 
-VARIABLES dir, hasali, hasref,
+VARIABLES dir, hasali, hasref, view,
           phase,                      \* "inject", "pass", "idle"
           defects,                    \* sequence of [u, k, j] injected so far
           dirinit,                    \* directory when the first pass started
           fix, cur, part, fdt0, nfilt, r2d, dir0,     \* the running pass (code: feat_dtype, num_filts, ref_is_2d)
           hist                        \* completed passes: [fix, ok, before, after]
-vars == <<dir, hasali, hasref, phase, defects, dirinit, fix, cur, part, fdt0, nfilt, r2d, dir0, hist>>
+vars == <<dir, hasali, hasref, view, phase, defects, dirinit, fix, cur, part, fdt0, nfilt, r2d, dir0, hist>>
 
 NU == Len(dir)
 
@@ -132,6 +148,27 @@ CheckRef(r, T, fx, seen2d) ==
      ELSE [ok |-> FALSE, val |-> r, r2d |-> seen2d]
 
 (***************************************************************************)
+(* The view: what the data set hands to the validator for a stored         *)
+(* reference (_load_ref: tokens_only drops the boundaries of a 2-D         *)
+(* reference, then the start symbol goes in front and the end symbol       *)
+(* behind; in a 2-D reference as a row without boundaries).  The dtype is  *)
+(* that of the stored tensor.                                              *)
+(***************************************************************************)
+PlainView == [sos |-> None, eos |-> None, tokens_only |-> FALSE]
+SymRow(s) == <<s, None, None>>
+ViewRef(r, v) ==
+  LET r0 == IF v.tokens_only /\ r.nd = 2
+            THEN [r EXCEPT !.nd = 1, !.cols = 3, !.rows = [j \in 1..Len(r.rows) |-> SymRow(r.rows[j][1])]]
+            ELSE r
+      r1 == IF v.sos # None THEN [r0 EXCEPT !.rows = <<SymRow(v.sos)>> \o r0.rows] ELSE r0
+  IN IF v.eos # None THEN [r1 EXCEPT !.rows = r1.rows \o <<SymRow(v.eos)>>] ELSE r1
+\* the view presents every stored reference as it is
+IdentityView(v, d) == /\ v.sos = None /\ v.eos = None
+                      /\ (v.tokens_only => \A a \in 1..Len(d) : d[a].ref.nd # 2)
+\* defects of a stored reference that a tokens_only data set does not present to the validator
+HiddenByTokensOnly == {"half_s", "half_e", "s_gt_e", "e_over", "s_gt_T", "short_over", "mixed", "cols"}
+
+(***************************************************************************)
 (* Defect injection                                                        *)
 (***************************************************************************)
 SetRow1(u, row) == [u EXCEPT !.ref.rows = [@ EXCEPT ![1] = row]]
@@ -166,12 +203,13 @@ Inject(a, d) ==
   /\ phase = "inject" /\ Len(defects) < MaxDefects
   /\ Applicable(dir[a], d)
   /\ Apply(dir[a], d) # dir[a]
+  /\ ~(view.tokens_only /\ d.k \in HiddenByTokensOnly)
   \* an unordered set of defects: injected in increasing (utterance, defect id) order, one per kind
   /\ \A q \in 1..Len(defects) : /\ defects[q].u * 100 + defects[q].id < a * 100 + d.id
                                  /\ <<defects[q].u, defects[q].k>> # <<a, d.k>>
   /\ dir' = [dir EXCEPT ![a] = Apply(dir[a], d)]
   /\ defects' = Append(defects, [u |-> a, id |-> d.id, k |-> d.k, j |-> d.j])
-  /\ UNCHANGED <<hasali, hasref, phase, dirinit, fix, cur, part, fdt0, nfilt, r2d, dir0, hist>>
+  /\ UNCHANGED <<hasali, hasref, view, phase, dirinit, fix, cur, part, fdt0, nfilt, r2d, dir0, hist>>
 
 (***************************************************************************)
 (* The pass                                                                *)
@@ -179,18 +217,19 @@ Inject(a, d) ==
 FixesSoFar == [q \in 1..Len(hist) |-> hist[q].fix]
 IsPrefix(s, t) == Len(s) <= Len(t) /\ \A q \in 1..Len(s) : s[q] = t[q]
 
+PlansOf(v) == IF v = [sos |-> None, eos |-> None, tokens_only |-> FALSE] THEN Plans ELSE ViewPlans
 StartPass(fx) ==
   /\ phase \in {"inject", "idle"}
-  /\ \E p \in Plans : IsPrefix(Append(FixesSoFar, fx), p)
+  /\ \E p \in PlansOf(view) : IsPrefix(Append(FixesSoFar, fx), p)
   /\ phase' = "pass" /\ fix' = fx /\ cur' = 1 /\ part' = "feat"
   /\ fdt0' = "none" /\ nfilt' = 0 /\ r2d' = "none" /\ dir0' = dir
   /\ dirinit' = IF phase = "inject" THEN dir ELSE dirinit
-  /\ UNCHANGED <<dir, hasali, hasref, defects, hist>>
+  /\ UNCHANGED <<dir, hasali, hasref, view, defects, hist>>
 
 Raise ==
   /\ hist' = Append(hist, [fix |-> fix, ok |-> FALSE, before |-> dir0, after |-> dir])
   /\ phase' = "idle"
-  /\ UNCHANGED <<dir, hasali, hasref, defects, dirinit, fix, cur, part, fdt0, nfilt, r2d, dir0>>
+  /\ UNCHANGED <<dir, hasali, hasref, view, defects, dirinit, fix, cur, part, fdt0, nfilt, r2d, dir0>>
 
 StepFeat ==
   /\ phase = "pass" /\ part = "feat"
@@ -198,35 +237,46 @@ StepFeat ==
      IN IF fdt0 \notin {"none", u.fdt} \/ u.fnd # 2 \/ (nfilt # 0 /\ u.F # nfilt)
         THEN Raise
         ELSE /\ fdt0' = u.fdt /\ nfilt' = (IF nfilt = 0 THEN u.F ELSE nfilt) /\ part' = "ali"
-             /\ UNCHANGED <<dir, hasali, hasref, phase, defects, dirinit, fix, cur, r2d, dir0, hist>>
+             /\ UNCHANGED <<dir, hasali, hasref, view, phase, defects, dirinit, fix, cur, r2d, dir0, hist>>
 
 StepAli ==
   /\ phase = "pass" /\ part = "ali"
   /\ IF ~hasali
      THEN /\ part' = "ref"
-          /\ UNCHANGED <<dir, hasali, hasref, phase, defects, dirinit, fix, cur, fdt0, nfilt, r2d, dir0, hist>>
+          /\ UNCHANGED <<dir, hasali, hasref, view, phase, defects, dirinit, fix, cur, fdt0, nfilt, r2d, dir0, hist>>
      ELSE LET c == CheckAli(dir[cur].ali, dir[cur].T, fix)
           IN IF ~c.ok THEN Raise
              ELSE /\ dir' = [dir EXCEPT ![cur].ali = c.val]          \* write-back of this tensor
                   /\ part' = "ref"
-                  /\ UNCHANGED <<hasali, hasref, phase, defects, dirinit, fix, cur, fdt0, nfilt, r2d, dir0, hist>>
+                  /\ UNCHANGED <<hasali, hasref, view, phase, defects, dirinit, fix, cur, fdt0, nfilt, r2d, dir0, hist>>
+
+\* The code sees the reference through the view (loaded); the verdict and ref_is_2d come from that.
+\* What reaches the directory is the repaired STORED tensor, and only when the tensor was repaired.
+RefStep(stored, T, fx, seen2d, v) ==
+  LET loaded == ViewRef(stored, v)
+      cv == CheckRef(loaded, T, fx, seen2d)
+      cs == CheckRef(stored, T, fx, "none")
+  IN [ok |-> cv.ok, r2d |-> cv.r2d, loaded |-> loaded, seen |-> cv.val,
+      val |-> IF cv.ok /\ cv.val # loaded THEN cs.val ELSE stored]
 
 StepRef ==
   /\ phase = "pass" /\ part = "ref"
-  /\ LET c == IF hasref THEN CheckRef(dir[cur].ref, dir[cur].T, fix, r2d)
+  /\ LET c == IF hasref THEN RefStep(dir[cur].ref, dir[cur].T, fix, r2d, view)
               ELSE [ok |-> TRUE, val |-> dir[cur].ref, r2d |-> r2d]
          nd == [dir EXCEPT ![cur].ref = c.val]
      IN IF ~c.ok THEN Raise
         ELSE IF cur < NU
         THEN /\ dir' = nd /\ r2d' = c.r2d /\ cur' = cur + 1 /\ part' = "feat"
-             /\ UNCHANGED <<hasali, hasref, phase, defects, dirinit, fix, fdt0, nfilt, dir0, hist>>
+             /\ UNCHANGED <<hasali, hasref, view, phase, defects, dirinit, fix, fdt0, nfilt, dir0, hist>>
         ELSE /\ dir' = nd /\ r2d' = c.r2d
              /\ hist' = Append(hist, [fix |-> fix, ok |-> TRUE, before |-> dir0, after |-> nd])
              /\ phase' = "idle"
-             /\ UNCHANGED <<hasali, hasref, defects, dirinit, fix, cur, part, fdt0, nfilt, dir0>>
+             /\ UNCHANGED <<hasali, hasref, view, defects, dirinit, fix, cur, part, fdt0, nfilt, dir0>>
 
 Init ==
   /\ \E b \in Bases : dir = b.dir /\ hasali = b.hasali /\ hasref = b.hasref
+  \* a view that presents this base as it is stored is the plain view
+  /\ view \in Views /\ (view = PlainView \/ (hasref /\ ~IdentityView(view, dir)))
   /\ phase = "inject" /\ defects = <<>> /\ dirinit = <<>>
   /\ fix = None /\ cur = 1 /\ part = "feat" /\ fdt0 = "none" /\ nfilt = 0 /\ r2d = "none" /\ dir0 = <<>>
   /\ hist = <<>>
@@ -357,18 +407,44 @@ InfoIsRecount ==
      IN /\ \A f \in DOMAIN c : c[f] = e[f]
         /\ \A i \in DOMAIN e.rcount : e.rcount[i] = e.rcount_strict[i] \/ e.rcount_strict[i] = None
 
+\* The view.  (1) the repairs of the presented reference are the presentation of the repairs of the
+\* stored one, and the presented reference is repaired exactly when the stored one is: writing back
+\* the repaired stored tensor is what "repaired on disk" means under every view
+RepairCommutesWithView ==
+  (phase = "pass" /\ part = "ref" /\ hasref) =>
+     LET c == RefStep(dir[cur].ref, dir[cur].T, fix, r2d, view)
+         cs == CheckRef(dir[cur].ref, dir[cur].T, fix, "none")
+     IN c.ok => /\ cs.ok
+                /\ c.seen = ViewRef(cs.val, view)
+                /\ (c.seen # c.loaded) <=> (cs.val # dir[cur].ref)
+\* (2) a tensor without a defect keeps its stored content (rejected passes included); features are
+\* never rewritten (no CUDA tensors in this universe)
+AliClean(u) == u.ali.dt = "i64" /\ u.ali.nd = 1 /\ Len(u.ali.vals) = u.T
+RefClean(u) == /\ u.ref.dt = "i64" /\ u.ref.nd \in {1, 2}
+               /\ u.ref.nd = 2 => /\ u.ref.cols = 3
+                                   /\ \A j \in 1..Len(u.ref.rows) : RowOK(u.ref.rows[j], u.T)
+UndamagedUntouched ==
+  Fresh => \A a \in 1..Len(LastPass.before) :
+             LET b == LastPass.before[a]
+                 e == LastPass.after[a]
+             IN /\ [e EXCEPT !.ali = b.ali, !.ref = b.ref] = b
+                /\ (~hasali \/ AliClean(b)) => e.ali = b.ali
+                /\ (~hasref \/ RefClean(b)) => e.ref = b.ref
 (***************************************************************************)
 (* Export: one record per completed history                                *)
 (***************************************************************************)
 Emit(rec) == PrintT(<<"VFJ", ToJson(rec)>>)
-Complete == phase = "idle" /\ FixesSoFar \in Plans
+Complete == phase = "idle" /\ FixesSoFar \in PlansOf(view)
 InfoRec(d) == IF WellFormed(d, hasali, hasref) THEN <<InfoDecl(d, hasali, hasref)>> ELSE <<>>
 Export ==
   Complete =>
-    Emit([hasali |-> hasali, hasref |-> hasref, defects |-> defects, dir |-> dirinit,
+    Emit([hasali |-> hasali, hasref |-> hasref, defects |-> defects, dir |-> dirinit, view |-> view,
           wellformed |-> WellFormed(dirinit, hasali, hasref),
           info0 |-> InfoRec(dirinit),
           passes |-> [q \in 1..Len(hist) |->
                         [fix |-> hist[q].fix, ok |-> hist[q].ok, after |-> hist[q].after,
+                         \* what the data set presents of the references left behind (classification only)
+                         viewed |-> IF view = PlainView \/ ~hasref THEN <<>>
+                                    ELSE [a \in 1..Len(hist[q].after) |-> ViewRef(hist[q].after[a].ref, view)],
                          info |-> IF hist[q].ok THEN InfoRec(hist[q].after) ELSE <<>>]]])
 =============================================================================
